@@ -3,6 +3,7 @@ import SV.Misc.Adapter
 import SV.Misc.Unit
 import SV.Misc.Fifo
 import SV.Misc.TimeCache
+import SV.Misc.TimeCacheMore
 open SV
 
 namespace Drv.Misc
@@ -167,16 +168,12 @@ def tStep (st : TSt) (toks : List String) : TSt × String :=
         let i := (TimeCache.I.mk st.must st.may).upsert k v span lo hi
         ({ st with must := i.must, may := i.may }, "ok")
       else if op = "hoa" then
+        -- interval HasOrAdd (SV.Misc.TimeCacheMore.I.hasOrAdd, sound by Sandwich.hasOrAdd / Sandwich.hasOrAdd_flags):
+        -- certainly present → (has, ¬added); certainly absent → (¬has, added); otherwise the flags are unknown
         let inMust := TimeCache.has st.must k
         let inMay := TimeCache.has st.may k
-        if inMust then (st, "1 0")
-        else if !inMay then
-          ({ st with must := TimeCache.add st.must k v span lo, may := TimeCache.add st.may k v span hi }, "0 1")
-        else
-          -- uncertain: possibly present (kept, not refreshed) or absent (added now): `must` learns nothing,
-          -- `may` keeps the longer-lived of the two possibilities
-          let old := (alookup k st.may).getD ⟨hi, span, v⟩
-          ({ st with may := aset k ⟨hi, max old.span span, old.value⟩ st.may }, "? ?")
+        let i := (TimeCache.I.mk st.must st.may).hasOrAdd k v span lo hi
+        ({ st with must := i.must, may := i.may }, if inMust then "1 0" else if !inMay then "0 1" else "? ?")
       else (st, "bad-op")
     | _, _, _ => (st, "bad-op")
   | ["sweep", lo, hi] =>
